@@ -211,7 +211,109 @@ def tlc_trace(tla, shards, pid, cfg="Trace.cfg", par=None, env=None, timeout=360
                 mism.append((r["shard"], ln, why, evs.get(ln)))
     n = sum(r["distinct"] - 1 for r in results)
     log(f"[tlc-trace] {tla}: shards={len(shards)} events={n} mismatches={len(mism)} {time.time()-t0:.1f}s")
+    if os.environ.get("VERIF_BINDING") and shards:
+        binding_pass(tla, shards[0], pid, cfg, env, {ln for sh, ln, _, _ in mism if sh == shards[0]}, xmx)
     return results, mism
+
+
+# --------------------------------------------------------------------------
+# binding demonstration: corrupt recorded fields, expect rejection
+
+_SKIP_KEYS = {"cls", "op", "scope", "s", "name", "src", "_zone"}
+BINDING = {}   # (tla, op) -> [corrupted, rejected, rejected by an evaluation error]
+
+
+def _leaves(v, path, out):
+    if isinstance(v, bool):
+        out.append(path)
+    elif isinstance(v, int):
+        out.append(path)
+    elif isinstance(v, list):
+        for i, x in enumerate(v):
+            _leaves(x, path + [i], out)
+    elif isinstance(v, dict):
+        for k, x in v.items():
+            if k not in _SKIP_KEYS:
+                _leaves(x, path + [k], out)
+
+
+def _perturb(ev, path):
+    cur = ev
+    for k in path[:-1]:
+        cur = cur[k]
+    v = cur[path[-1]]
+    cur[path[-1]] = (not v) if isinstance(v, bool) else v + 1
+
+
+def binding_pass(tla, shard, pid, cfg, env, already_bad, xmx, per_op=12):
+    """Corrupt one numeric field in up to per_op events of every kind in the shard, validate
+    the corrupted shard, and count how many corrupted events the specification rejects."""
+    import random
+    rnd = random.Random(12345)
+    lines = open(shard).read().splitlines()
+    by_op = {}
+    for i, line in enumerate(lines, 1):
+        if i in already_bad:
+            continue
+        try:
+            ev = json.loads(line)
+        except Exception:
+            continue
+        op = ev.get("op", "?")
+        if op in ("zone", "reset"):
+            continue
+        by_op.setdefault(op, []).append(i)
+    chosen = {}
+    for op, idx in by_op.items():
+        for i in rnd.sample(idx, min(per_op, len(idx))):
+            ev = json.loads(lines[i - 1])
+            lv = []
+            _leaves(ev, [], lv)
+            if not lv:
+                continue
+            path = rnd.choice(lv)
+            _perturb(ev, path)
+            chosen[i] = (op, path, json.dumps(ev, separators=(",", ":")))
+    evalerr = set()
+    rejected = set()
+    for attempt in range(25):
+        cur = list(lines)
+        for i, (op, path, txt) in chosen.items():
+            if i not in evalerr:
+                cur[i - 1] = txt
+        f = os.path.join(WORK, pid, "binding.ndjson")
+        os.makedirs(os.path.dirname(f), exist_ok=True)
+        with open(f, "w") as fh:
+            fh.write("\n".join(cur) + "\n")
+        r = _trace_one(tla, cfg, f, os.path.join(WORK, pid, "tlc-binding"), env, 1800, xmx)
+        rejected |= {ln for ln, _ in r["mismatches"]}
+        if "tool_error" not in r:
+            break
+        # an evaluation error stops TLC at one event: that event is rejected too; restore it and go on
+        pos = [int(x) for x in re.findall(r"\bl = (\d+)", r["tool_error"])]
+        k = pos[-1] if pos else None
+        if k is None or k not in chosen or k in evalerr:
+            cand = [i for i in sorted(chosen) if i not in evalerr and i not in rejected]
+            if not cand:
+                break
+            k = cand[0] if k is None else min(cand, key=lambda i: abs(i - k))
+        evalerr.add(k)
+    collateral = len([ln for ln in rejected if ln not in chosen])
+    for i, (op, path, txt) in chosen.items():
+        st = BINDING.setdefault((tla, op), [0, 0, 0, []])
+        st[0] += 1
+        if i in evalerr:
+            st[2] += 1
+        elif i in rejected:
+            st[1] += 1
+        elif len(st[3]) < 6:
+            st[3].append("/".join(str(x) for x in path))
+    for (t, op), st in sorted(BINDING.items()):
+        if t == tla:
+            log(f"[binding] {tla} op={op}: corrupted={st[0]} rejected={st[1]} eval-error={st[2]} "
+                f"accepted={st[0]-st[1]-st[2]} {('unconstrained: ' + ', '.join(st[3])) if st[3] else ''}")
+    if collateral:
+        log(f"[binding] {tla}: {collateral} uncorrupted events rejected as a consequence (stateful trace)")
 
 
 # --------------------------------------------------------------------------
